@@ -367,6 +367,13 @@ func (g *progGen) draw(vars *[]int) *Stmt {
 	label := ""
 	if g.t.Chance("draw.labelled", 60) {
 		label = fmt.Sprintf("v%d", v)
+		// labels are arbitrary user text: some carry a '%' (no tape draw: the decoding of existing tapes is unchanged)
+		switch v % 8 {
+		case 3:
+			label = fmt.Sprintf("v%d%%", v)
+		case 6:
+			label = fmt.Sprintf("%%v%d", v)
+		}
 	}
 	return &Stmt{K: SDraw, Var: v, Gen: g.genSpec(0), Label: label}
 }
